@@ -92,6 +92,7 @@ Inductive must_refuse (s : str) : Prop :=
 | mr_move_empty : move_field s = [] -> must_refuse s
 | mr_move_not_digits c : In c (move_field s) -> ~ is_digit_char c -> must_refuse s
 | mr_move_below_one : dec_value (move_field s) < 1 -> must_refuse s
+| mr_move_too_long : max_str_digits < zlen (move_field s) -> must_refuse s   (* more digits than int() converts *)
 | mr_empty_row : In [] (groups s) -> must_refuse s
 | mr_empty_cell : has_cell s [] -> must_refuse s
 | mr_bad_empty_run rest :                               (* x followed by anything but nothing or one digit 1-8 *)
@@ -105,9 +106,9 @@ Inductive must_refuse (s : str) : Prop :=
 | mr_ragged g : In g (groups s) -> group_width g <> text_size s -> must_refuse s
 | mr_size : text_size s < 3 \/ 8 < text_size s -> must_refuse s.
 
-(* the one class on which the model says Unspecified: the move number passes
-   isascii()/isdigit() but int() refuses it (more than 4300 digits), and this
-   happens before the board is looked at *)
+(* the move number passes isascii()/isdigit() but int() refuses it (more than
+   4300 digits); the code turns that into IllegalTPS before the board is looked
+   at (it is an instance of mr_move_too_long) *)
 Definition over_int_limit (s : str) : Prop :=
   length (fields s) = 3%nat /\
   (who_field s = [ch_1] \/ who_field s = [ch_2]) /\
